@@ -4,6 +4,7 @@ import numpy as np
 from lib import common as C
 
 GEN = ['MultiplyBasis', 'ComputeL', 'SparseIndex']
+RELATED = ['C02']      # the shift rule is also coded in AccumulatedDerivative.__call__ (obligation two_codings_agree): its failing inputs are simple-block programs with nested shifts
 TRUSTED = ['numpy reshape/flatten/zeros and numba compilation of multiply_rs_matrix (the Python source is what is modelled)',
            'loops that write each output cell at most once are modelled by their pointwise effect (Model/Sparse.v)']
 ASSUMPTIONS = ['coefficients are exact (integers) in the correspondence runs; the 1e-14 sparsity threshold is modelled as "== 0"',
